@@ -92,8 +92,23 @@ def spellings(a, b, rng=None):
 WS_VARIANTS = ['', ' ', '\t', '\n ', ' /* c */ ']
 
 
-def render_nth(kind, toks, of_text, ws):
-    s = ':' + kind + '(' + ws
+def spell_name(kind, k):
+    """The pseudo-class name in another accepted spelling: letter case, and CSS escapes (also of upper-case letters)."""
+    k = k % 7
+    if k < 3:
+        return kind
+    if k == 3:
+        return kind.upper()
+    i = {4: 4, 5: len(kind) - 1, 6: 0}[k]            # a letter of the name ('nth-Child', last letter, first letter)
+    c = kind[i]
+    if not c.isalpha():
+        return kind
+    esc = '\\%x ' % ord(c.upper() if k != 6 else c)
+    return kind[:i] + esc + kind[i + 1:]
+
+
+def render_nth(kind, toks, of_text, ws, name_spelling=0):
+    s = ':' + spell_name(kind, name_spelling) + '(' + ws
     for t in toks:
         s += ws if t[0] == 'o' else t[1]
     if of_text is not None:
@@ -122,7 +137,8 @@ def build(seq, inter, place, variant):
 
     nodes += filler(0)
     for i, ch in enumerate(seq):
-        t = soup.new_tag(ch)
+        # variant 1: names that differ only in ASCII case are the same type in an HTML tree (only the API can make them)
+        t = soup.new_tag(ch.upper() if variant == 1 and i % 3 == 1 else ch)
         if variant == 2:
             t['class'] = ['x']                     # look-alike siblings: equal by value (no ids, same class)
         elif (i * 7 + variant) % 3 != 1:
@@ -263,7 +279,7 @@ def run_unit(u):
                                 pick = sp if len(seq) <= 2 else [sp[(a + b + len(seq)) % len(sp)], sp[(a * 3 + b + ii) % len(sp)]]
                                 for toks in pick:
                                     ws = WS_VARIANTS[(a + b + len(toks)) % len(WS_VARIANTS)]
-                                    text = render_nth(kind, toks, None, ws)
+                                    text = render_nth(kind, toks, None, ws, a * 5 + b * 3 + len(seq) + ii)
                                     klist = [(kind, a, b, None)]
                                     st, got, exp = one(sv, target, top, sibs, klist, text, ref, idmap, orphan)
                                     record(st, seq, inter, place, variant, text, klist, got, exp, sibs)
@@ -357,7 +373,7 @@ def run_unit(u):
                 b = rng.randint(-mag, mag) if rng.random() < .7 else rng.randint(-9, 9)
                 kind = rng.choice(KINDS)
                 sp = spellings(a, b)
-                text = render_nth(kind, rng.choice(sp), None, rng.choice(WS_VARIANTS))
+                text = render_nth(kind, rng.choice(sp), None, rng.choice(WS_VARIANTS), rng.randrange(7))
                 klist = [(kind, a, b, None)]
                 st, got, exp = one(sv, target, top, sibs, klist, text, ref, idmap, False)
                 record(st, seq, inter, place, variant, text, klist, got, exp, sibs)
